@@ -369,6 +369,48 @@ func c09(repo string, out *fg.Out) error {
 		return fmt.Errorf("readTagColumnsFromParquetFiles not found")
 	}
 	anyFile := strings.Contains(df.Text(rtc.Body), "foundAny")
+	// the dedup key is the UNION of the tag lists of ALL inputs: the loop over filePaths only
+	// accumulates into a set (its only returns are error returns `return nil, err`), and the
+	// result is built from that set after the loop.
+	var tagLoop *ast.RangeStmt
+	for _, st := range rtc.Body.List {
+		if rs, ok := st.(*ast.RangeStmt); ok && df.Text(rs.X) == "filePaths" {
+			tagLoop = rs
+		}
+	}
+	if tagLoop == nil {
+		return fmt.Errorf("readTagColumnsFromParquetFiles: top-level loop over filePaths not found")
+	}
+	unionKey := true
+	accumulates := false
+	ast.Inspect(tagLoop.Body, func(n ast.Node) bool {
+		switch x := n.(type) {
+		case *ast.ReturnStmt:
+			if len(x.Results) != 2 || df.Text(x.Results[0]) != "nil" || df.Text(x.Results[1]) != "err" {
+				unionKey = false // the loop answers early from a single file
+			}
+		case *ast.BranchStmt:
+			if x.Tok == token.BREAK {
+				unionKey = false
+			}
+		case *ast.AssignStmt:
+			if len(x.Lhs) == 1 {
+				if ix, ok := x.Lhs[0].(*ast.IndexExpr); ok && df.Text(ix.X) == "tagSet" {
+					accumulates = true
+				}
+			}
+		}
+		return true
+	})
+	afterLoop := false
+	for _, st := range rtc.Body.List {
+		if st.Pos() > tagLoop.End() {
+			if rs, ok := st.(*ast.RangeStmt); ok && df.Text(rs.X) == "tagSet" {
+				afterLoop = true
+			}
+		}
+	}
+	unionKey = unionKey && accumulates && afterLoop
 
 	lean := func(xs []string, typ string) string {
 		var ps []string
@@ -402,6 +444,8 @@ func c09(repo string, out *fg.Out) error {
 	fmt.Fprintf(w, "def downloadSkipsMissing : Bool := %s\n", b(downloadSkips))
 	fmt.Fprintf(w, "def outputKeepsDedupMetadata : Bool := %s\n", b(keepsMeta))
 	fmt.Fprintf(w, "def dedupWhenAnyInputTagged : Bool := %s\n", b(anyFile))
+	fmt.Fprintf(w, "/-- readTagColumnsFromParquetFiles returns the union of the arc:tags lists of ALL inputs -/\n")
+	fmt.Fprintf(w, "def dedupKeyIsUnionOfInputTags : Bool := %s\n", b(unionKey))
 	fmt.Fprintf(w, "def minFilesPerBatch : Nat := %d\n", minPer)
 	fmt.Fprintf(w, "def defaultMaxFilesPerBatch : Nat := %d\n", defMax)
 	fmt.Fprintf(w, "def maxAllowedFilesPerBatch : Nat := %d\n", maxAllowed)
@@ -418,5 +462,6 @@ func c09(repo string, out *fg.Out) error {
 	out.JSON["filter_inputs"] = filterInputs
 	out.JSON["filter_outputs"] = filterOutputs
 	out.JSON["output_keeps_dedup_metadata"] = keepsMeta
+	out.JSON["dedup_key_is_union"] = unionKey
 	return nil
 }
